@@ -221,7 +221,7 @@ def run(chk, R, tier, seed):
 
     def on_program(rec, cs):
         check_ctor_events(chk, w, rec, "predefined")
-    n = 2500 if tier == "quick" else 80000
+    n = 8000 if tier == "quick" else 80000
     done = 0
     while done < n:
         m = min(n - done, 20000)
@@ -232,7 +232,7 @@ def run(chk, R, tier, seed):
         run_cases(chk, R, cases, per_program=60, prelude=prelude,
                   on_program=on_program)
         done += m
-    nw = 30 if tier == "quick" else 1000
+    nw = 80 if tier == "quick" else 1000
     cases = []
     for wi in range(nw):
         plan, ww = random_plan(rng, noref=False, force_quantum=True)
